@@ -120,6 +120,20 @@ def replay(case):
                     break
             if bad:
                 continue
+            if name in ('lie', 'yoshida'):
+                # the integrators are linear in the initial value: the same state in other units (x 2^-80, exact in floating point)
+                # gives the scaled trajectory - with threshold 0 nothing may be cut, whatever the magnitude
+                S4, L4, I4, M4 = lib_args()
+                sol4 = f(S4, L4, I4, M4, (2.0 ** -80) * x0, h, ns, threshold=0, max_rank=200, normalize=0)
+                w4 = x0d.astype(complex)
+                for k in range(1, ns + 1):
+                    w4 = P @ w4
+                    g4 = contract(sol4[k].cores).reshape(-1) * 2.0 ** 80 if not metadata_problem(sol4[k]) else None
+                    if g4 is None or g4.shape != w4.shape or np.linalg.norm(g4 - w4) > 1e-9 * np.linalg.norm(w4):
+                        out.append(('%s:scaled-state:%s' % (name, kind), 'initial value scaled by 2^-80: state %d is not the scaled state of the '
+                                    'unscaled run (relative error %.3e; d=%d n=%d)' % (
+                                        k, (np.linalg.norm(g4 - w4) / np.linalg.norm(w4)) if g4 is not None and g4.shape == w4.shape else np.inf, d, n)))
+                        break
             if name in ('lie', 'strang'):
                 # second use of the caller's component arrays: integrated once, then S and L doubled in place and the step halved
                 # (h (S x I + L x M) is the same, so is every state)
